@@ -19,6 +19,8 @@ use crate::transcode;
 const DEPTH_LIMIT: usize = 1024;
 
 pub(crate) fn input_matches(mut input: Ref) -> io::Result<bool> {
+	#[cfg(xt_verif)]
+	crate::verif::emit("trial", 2, u64::from(matches!(input, Ref::Slice(_))), 0);
 	// In MessagePack, any byte below 0x80 represents a literal unsigned
 	// integer. That means any ASCII text input is a valid multi-document
 	// MessagePack stream, where every "document" is practically meaningless. To
@@ -105,8 +107,12 @@ impl<W: Write> crate::Output for Output<W> {
 		D: de::Deserializer<'de, Error = E>,
 		E: de::Error + Send + Sync + 'static,
 	{
+		#[cfg(xt_verif)]
+		crate::verif::emit("doc_begin", 2, 0, 0);
 		let mut ser = rmp_serde::Serializer::new(&mut self.0);
 		transcode::transcode(&mut ser, de)?;
+		#[cfg(xt_verif)]
+		crate::verif::emit("doc_end", 2, 0, 0);
 		Ok(())
 	}
 
@@ -114,8 +120,12 @@ impl<W: Write> crate::Output for Output<W> {
 	where
 		S: ser::Serialize,
 	{
+		#[cfg(xt_verif)]
+		crate::verif::emit("doc_begin", 2, 1, 0);
 		let mut ser = rmp_serde::Serializer::new(&mut self.0);
 		value.serialize(&mut ser)?;
+		#[cfg(xt_verif)]
+		crate::verif::emit("doc_end", 2, 0, 0);
 		Ok(())
 	}
 
@@ -271,6 +281,25 @@ impl Display for ReadSizeError {
 			ReadSizeError::InvalidMarker => f.write_str("invalid MessagePack marker in input"),
 			ReadSizeError::DepthLimitExceeded => f.write_str("depth limit exceeded"), // same message as rmp_serde
 		}
+	}
+}
+
+/// Thin wrappers for the verification harness (see `crate::verif`).
+#[cfg(xt_verif)]
+pub(crate) mod verif_hooks {
+	use super::ReadSizeError;
+	use crate::verif::SizeError;
+
+	pub(crate) fn next_value_size(input: &[u8], depth_limit: usize) -> Result<usize, SizeError> {
+		super::next_value_size(input, depth_limit).map_err(|err| match err {
+			ReadSizeError::Truncated => SizeError::Truncated,
+			ReadSizeError::InvalidMarker => SizeError::InvalidMarker,
+			ReadSizeError::DepthLimitExceeded => SizeError::DepthLimitExceeded,
+		})
+	}
+
+	pub(crate) fn depth_limit() -> usize {
+		super::DEPTH_LIMIT
 	}
 }
 
